@@ -9,6 +9,7 @@ static struct { const char *name; int (*fn)(FILE *, FILE *); } cmds[] = {
     {"meta", cmd_meta},
     {"chunkreq", cmd_chunkreq},
     {"readenum", cmd_readenum},
+    {"scan", cmd_scan},
     {NULL, NULL}
 };
 
